@@ -173,6 +173,18 @@ def run_shard(spec):
         tolv = 1e-5 if not cfg.get("dimred") or cfg.get("mode") == "dual" else None
         if tolv is not None and abs(o1[1] - o2[1]) > tolv * sc:
             V("backends_return_different_values", "cvxpy returns %.10g, mosek returns %.10g (mode %s)" % (o1[1], o2[1], cfg.get("mode")))
+        if cfg.get("dimred"):
+            # after the heuristic replaced the objective, both back-ends must keep the instance within the stated
+            # (absolute, default 1e-4) tolerance of the optimum
+            for nm, rc_ in (("cvxpy", case1.rec), ("mosek", rec2)):
+                opt = rc_["inner"][0]["value"]
+                objv = float(rc_["pep"].objective.eval()) if nm == "mosek" else rc_["inner"][-1].get("value")
+                if nm == "cvxpy":
+                    # objective variable of the last heuristic problem = wrapper.objective value, read from F
+                    objv = float(rc_["inner"][-1]["F"][rc_["objective"].counter])
+                if opt is not None and objv is not None and (opt - 1e-4) - objv > 1e-5 * (1 + abs(opt)):
+                    V("dimred_instance_below_tolerance:" + nm, "%s back-end: objective at the returned instance %.10g < optimum - tol = %.10g"
+                      % (nm, objv, opt - 1e-4))
         try:
             cf, cinfo = oracles.certificate_check(rec2, o2[1], cfg.get("mode", "dual"))
             pf, pinfo = oracles.primal_check(rec2, o2[1], cfg.get("mode", "dual"), held_objects=driver.held_objects(case2.machine))
